@@ -33,7 +33,8 @@ Qed.
 
 Lemma inv_step orig s o : Inv orig s -> Inv orig (ustep s o).
 Proof.
-  intros [Hu Hr]. destruct o as [pre after ci| |]; cbn [ustep].
+  intros [Hu Hr]. destruct o as [pre after ci| | |]; cbn [ustep];
+    [| | |split; cbn [u_buf u_undo u_redo]; [now apply chain_stop|assumption]].
   - apply (amend_chain orig s pre) in Hu. clear Hr. revert Hu. generalize (amend s pre). clear s.
     intros s Hu. unfold cmd_step.
     split; [|exact I]. cbn [u_buf u_undo].
@@ -282,7 +283,8 @@ Qed.
 Lemma ok_step H s o :
   ok H s -> ok (op_texts o ++ H) (ustep s o).
 Proof.
-  intros Hok. destruct o as [pre after ci| |]; cbn [ustep op_texts].
+  intros Hok. destruct o as [pre after ci| | |]; cbn [ustep op_texts];
+    [| | |destruct Hok as (A & B & C); repeat split; cbn [u_buf u_undo u_redo app]; [assumption|now apply forall_stop|assumption]].
   - apply (amend_ok H s pre) in Hok. apply (cmd_step_ok _ _ after ci) in Hok.
     destruct pre as [p|]; exact Hok.
   - destruct Hok as (A & B & C). cbn [u_undo app].
@@ -322,4 +324,23 @@ Proof.
   apply in_app_or in A as [A|A].
   - right. now apply in_rev.
   - destruct A as [<-|[]]. now left.
+Qed.
+
+(** the end of a key string closes an open insert session: what the next key string types is a change of its own *)
+Lemma boundary_closes s : top_merging (u_undo (ustep s OBoundary)) = false.
+Proof. cbn [ustep u_undo]. destruct (u_undo s) as [|e l]; reflexivity. Qed.
+Lemma boundary_keeps_text s : u_buf (ustep s OBoundary) = u_buf s /\ u_redo (ustep s OBoundary) = u_redo s
+                              /\ length (u_undo (ustep s OBoundary)) = length (u_undo s).
+Proof. cbn [ustep u_buf u_redo u_undo]. destruct (u_undo s); repeat split. Qed.
+
+Theorem undo_after_boundary_session s t ts :
+  t <> u_buf s ->
+  let s0 := ustep s OBoundary in
+  u_buf (ustep (fold_left (fun s t => ustep s (OCmd None t KContinues)) ts (ustep s0 (OCmd None t KContinues))) OUndo)
+  = u_buf s.
+Proof.
+  intros Hne s0.
+  assert (E : u_buf s0 = u_buf s) by apply boundary_keeps_text.
+  rewrite <- E. apply (undo_insert_session s0 t KContinues ts); [reflexivity| |congruence].
+  intros _. apply boundary_closes.
 Qed.
